@@ -57,7 +57,7 @@ type Script struct {
 type Op struct {
 	Run   int     `json:"run"`
 	Go    bool    `json:"go,omitempty"`
-	O     string  `json:"o"` // new res rej then comb
+	O     string  `json:"o"` // new res rej then comb async finally
 	Pr    int     `json:"pr,omitempty"`
 	V     *Val    `json:"v,omitempty"`
 	P     int     `json:"p,omitempty"`
@@ -65,11 +65,21 @@ type Op struct {
 	OnR   *Script `json:"onR,omitempty"`
 	Kind  string  `json:"kind,omitempty"`
 	Elems []Val   `json:"elems,omitempty"`
+	// then: emit p.catch(G) when onF is absent
+	Sugar bool `json:"sugar,omitempty"`
+	// async: async function(){ log(id); [try{] x = await v; log(id,x); ...; return v | throw v [}catch(e){ log(id+500,e) }] }
+	ID     int   `json:"id,omitempty"`
+	Catch  bool  `json:"catch,omitempty"`
+	Awaits []Val `json:"awaits,omitempty"`
+	End    *Ret  `json:"end,omitempty"` // k = ret | throw
+	// finally
+	Fin *Script `json:"fin,omitempty"`
 }
 
 type Case struct {
 	Thenables []Thenable `json:"thenables"`
 	Ops       []Op       `json:"ops"`
+	Class     string     `json:"class,omitempty"` // generator scenario (coverage tag only)
 }
 
 var undef = Val{K: "undef"}
@@ -136,7 +146,7 @@ func normScript(s *Script, nv func(*Val) Val, users map[int]bool) *Script {
 // normalise returns the normalised case and the number of named promises it creates.
 func normalise(c Case) (Case, int) {
 	nT := len(c.Thenables)
-	out := Case{Thenables: []Thenable{}, Ops: []Op{}}
+	out := Case{Thenables: []Thenable{}, Ops: []Op{}, Class: c.Class}
 	names := 0
 	users := map[int]bool{}
 	for _, op := range c.Ops {
@@ -158,7 +168,38 @@ func normalise(c Case) (Case, int) {
 				continue
 			}
 			out.Ops = append(out.Ops, Op{Run: op.Run, O: "then", P: op.P,
-				OnF: normScript(op.OnF, nv, users), OnR: normScript(op.OnR, nv, users)})
+				OnF: normScript(op.OnF, nv, users), OnR: normScript(op.OnR, nv, users),
+				Sugar: op.Sugar && op.OnF == nil && op.OnR != nil})
+			names++
+		case "finally":
+			if op.P < 0 || op.P >= names {
+				continue
+			}
+			fin := op.Fin
+			if fin == nil {
+				fin = &Script{Ret: Ret{K: "arg"}}
+			}
+			out.Ops = append(out.Ops, Op{Run: op.Run, O: "finally", P: op.P, Fin: normScript(fin, nv, users)})
+			names++
+		case "async":
+			no := Op{Run: op.Run, O: "async", ID: clamp(op.ID, 0, 199), Catch: op.Catch, Awaits: []Val{}}
+			for _, e := range op.Awaits {
+				e := e
+				no.Awaits = append(no.Awaits, nv(&e))
+			}
+			end := Ret{K: "ret"}
+			if op.End != nil && op.End.K == "throw" {
+				end.K = "throw"
+			}
+			var ev Val
+			if op.End != nil {
+				ev = nv(op.End.V)
+			} else {
+				ev = undef
+			}
+			end.V = &ev
+			no.End = &end
+			out.Ops = append(out.Ops, no)
 			names++
 		case "comb":
 			kind := op.Kind
@@ -232,7 +273,7 @@ func nameIndex(ops []Op) []int {
 	names := 0
 	for i, op := range ops {
 		out[i] = -1
-		if op.O == "new" || op.O == "then" || op.O == "comb" {
+		if op.O == "new" || op.O == "then" || op.O == "comb" || op.O == "async" || op.O == "finally" {
 			out[i] = names
 			names++
 		}
@@ -292,7 +333,32 @@ func jsOp(op Op, k int) string {
 	case "res", "rej":
 		return fmt.Sprintf("%s%d(%s);", op.O, op.Pr, jsVal(pv(op.V)))
 	case "then":
+		if op.Sugar && op.OnF == nil && op.OnR != nil {
+			return fmt.Sprintf("var p%d = p%d.catch(%s);", k, op.P, jsScript(op.OnR))
+		}
 		return fmt.Sprintf("var p%d = p%d.then(%s, %s);", k, op.P, jsScript(op.OnF), jsScript(op.OnR))
+	case "finally":
+		return fmt.Sprintf("var p%d = p%d.finally(%s);", k, op.P, jsScript(op.Fin))
+	case "async":
+		var b strings.Builder
+		fmt.Fprintf(&b, "var p%d = (async function(){ log(%d); ", k, op.ID)
+		if op.Catch {
+			b.WriteString("try { ")
+		}
+		b.WriteString("var x; ")
+		for _, a := range op.Awaits {
+			fmt.Fprintf(&b, "x = await %s; log(%d, x); ", jsVal(a), op.ID)
+		}
+		if op.End != nil && op.End.K == "throw" {
+			fmt.Fprintf(&b, "throw %s; ", jsVal(pv(op.End.V)))
+		} else if op.End != nil {
+			fmt.Fprintf(&b, "return %s; ", jsVal(pv(op.End.V)))
+		}
+		if op.Catch {
+			fmt.Fprintf(&b, "} catch(e) { log(%d, e); } ", op.ID+500)
+		}
+		b.WriteString("})();")
+		return b.String()
 	case "comb":
 		var es []string
 		for _, e := range op.Elems {
@@ -388,6 +454,23 @@ func cqOp(op Op) string {
 		return fmt.Sprintf("(ORej %d %s)", op.Pr, cqVal(pv(op.V)))
 	case "then":
 		return fmt.Sprintf("(OThen %d %s %s)", op.P, cqScript(op.OnF), cqScript(op.OnR))
+	case "finally":
+		sc := cqScript(op.Fin) // "(Some (mkScript ...))"
+		return fmt.Sprintf("(OFinally %d %s)", op.P, strings.TrimSuffix(strings.TrimPrefix(sc, "(Some "), ")"))
+	case "async":
+		var as []string
+		for _, a := range op.Awaits {
+			as = append(as, cqVal(a))
+		}
+		end := "(ARet VUndef)"
+		if op.End != nil {
+			if op.End.K == "throw" {
+				end = fmt.Sprintf("(AThrow %s)", cqVal(pv(op.End.V)))
+			} else {
+				end = fmt.Sprintf("(ARet %s)", cqVal(pv(op.End.V)))
+			}
+		}
+		return fmt.Sprintf("(OAsync %d %s %s %s)", op.ID, vh.CoqBool(op.Catch), vh.CoqList(as), end)
 	case "comb":
 		kind := map[string]string{"all": "CAll", "allSettled": "CAllSettled", "race": "CRace", "any": "CAny"}[op.Kind]
 		var es []string
@@ -696,8 +779,8 @@ func (e *exec) observe() observation {
 // tags
 
 type features struct {
-	tags                                                    map[string]bool
-	resProm, resThen, retProm, retThen, comb, multiRun, dbl bool
+	tags                                                                map[string]bool
+	resProm, resThen, retProm, retThen, comb, multiRun, dbl, async, fin bool
 }
 
 func staticFeatures(c Case) features {
@@ -771,6 +854,41 @@ func staticFeatures(c Case) features {
 			}
 			visitScript(op.OnF)
 			visitScript(op.OnR)
+			if op.Sugar {
+				f.tags["catch-sugar"] = true
+			}
+		case "finally":
+			f.fin = true
+			if userOf[op.P] && settledBefore[op.P] {
+				f.tags["then-after-settle"] = true
+			}
+			visitScript(op.Fin)
+		case "async":
+			f.async = true
+			if len(op.Awaits) == 0 {
+				f.tags["async-no-await"] = true
+			}
+			for _, a := range op.Awaits {
+				switch a.K {
+				case "prom":
+					f.tags["async-await-promise"] = true
+				case "then":
+					f.tags["async-await-thenable"] = true
+				}
+			}
+			if op.Catch {
+				f.tags["async-catch"] = true
+			}
+			if op.End != nil && op.End.K == "throw" {
+				f.tags["async-throw"] = true
+			} else if op.End != nil {
+				switch pv(op.End.V).K {
+				case "prom":
+					f.tags["async-return-promise"] = true
+				case "then":
+					f.tags["async-return-thenable"] = true
+				}
+			}
 		case "comb":
 			f.comb = true
 			f.tags["comb:"+op.Kind] = true
@@ -791,6 +909,9 @@ func staticFeatures(c Case) features {
 	}
 	for _, t := range c.Thenables {
 		f.tags["thenable-"+t.K] = true
+	}
+	if c.Class != "" {
+		f.tags[c.Class] = true
 	}
 	return f
 }
@@ -854,7 +975,7 @@ func runCase(raw Case) vh.Record {
 		tl = append(tl, t)
 	}
 	sort.Strings(tl)
-	nontrivial := len(e.log) >= 2 && (f.resProm || f.resThen || f.retProm || f.retThen || f.comb || f.multiRun || f.dbl)
+	nontrivial := len(e.log) >= 2 && (f.resProm || f.resThen || f.retProm || f.retThen || f.comb || f.multiRun || f.dbl || f.async || f.fin)
 	return vh.Record{Case: vh.MustJSON(c), Coq: coq, Obs: obs, Tags: tl, Nontrivial: nontrivial}
 }
 
@@ -869,6 +990,9 @@ type gen struct {
 	nextID   int
 	wantIntr bool
 	lastTgt  int
+	live     map[int]bool // named promises expected to settle (heuristic, steers target choice)
+	touched  map[int]bool // user pairs some op has called
+	settled  []int        // user pairs settled with a plain value by an earlier op
 }
 
 func (g *gen) someInt() Val { return Val{K: "int", N: g.r.Intn(10)} }
@@ -951,13 +1075,8 @@ func (g *gen) script() *Script {
 	return s
 }
 
-func genCase(r *vh.Rng) Case {
-	g := &gen{r: r, nextID: 1, lastTgt: -1}
-	c := Case{Thenables: []Thenable{}, Ops: []Op{}}
-	base := 1 + r.Intn(4)
-	g.nT = r.Pick(25, 30, 28, 17)
-	g.wantIntr = r.Chance(15)
-	wantGo := r.Chance(25)
+func (g *gen) genThenables(c *Case, base int) {
+	r := g.r
 	for i := 0; i < g.nT; i++ {
 		tval := func() Val {
 			switch r.Pick(50, 30, 20) {
@@ -984,83 +1103,339 @@ func genCase(r *vh.Rng) Case {
 			c.Thenables = append(c.Thenables, Thenable{K: "nothen"})
 		}
 	}
-	for i := 0; i < base; i++ {
-		c.Ops = append(c.Ops, Op{O: "new"})
-		g.users = append(g.users, g.names)
-		g.names++
+}
+
+// a named promise, preferring those expected to settle
+func (g *gen) liveProm() Val {
+	var l []int
+	for k := 0; k < g.names; k++ {
+		if g.live[k] {
+			l = append(l, k)
+		}
 	}
-	const maxOps, maxNames = 12, 8
-	total := base + 1 + r.Intn(maxOps-1-base)
-	if t2 := base + 1 + r.Intn(maxOps-1-base); t2 > total && r.Chance(70) {
+	if len(l) == 0 || g.r.Chance(25) {
+		return g.someProm()
+	}
+	return Val{K: "prom", N: l[g.r.Intn(len(l))]}
+}
+
+// a promise already settled by an earlier op, if any
+func (g *gen) settledProm() Val {
+	if len(g.settled) == 0 {
+		return g.liveProm()
+	}
+	return Val{K: "prom", N: g.settled[g.r.Intn(len(g.settled))]}
+}
+
+func (g *gen) isLive(v Val) bool { return v.K != "prom" || g.live[v.N] }
+
+func (g *gen) async() Op {
+	r := g.r
+	op := Op{O: "async", ID: g.nextID, Catch: r.Chance(25), Awaits: []Val{}}
+	g.nextID++
+	lv := true
+	for n := r.Pick(30, 32, 24, 14); n > 0; n-- {
+		var v Val
+		switch r.Pick(30, 40, 20, 10) {
+		case 0:
+			v = g.someInt()
+		case 1:
+			if r.Chance(40) {
+				v = g.settledProm()
+			} else {
+				v = g.liveProm()
+			}
+		case 2:
+			v = g.someThen()
+		default:
+			v = undef
+		}
+		lv = lv && g.isLive(v)
+		op.Awaits = append(op.Awaits, v)
+	}
+	var v Val
+	if r.Chance(80) {
+		switch r.Pick(45, 30, 15, 10) {
+		case 0:
+			if r.Chance(60) {
+				v = g.settledProm()
+			} else {
+				v = g.liveProm()
+			}
+		case 1:
+			v = g.someInt()
+		case 2:
+			v = g.someThen()
+		default:
+			v = undef
+		}
+		op.End = &Ret{K: "ret", V: &v}
+	} else {
+		switch r.Pick(70, 15, 15) {
+		case 0:
+			v = g.someInt()
+		case 1:
+			v = g.someProm()
+		default:
+			v = g.someThen()
+		}
+		op.End = &Ret{K: "throw", V: &v}
+	}
+	g.live[g.names] = lv && g.isLive(v)
+	g.names++
+	return op
+}
+
+func (g *gen) addNew(c *Case) {
+	c.Ops = append(c.Ops, Op{O: "new"})
+	g.users = append(g.users, g.names)
+	g.live[g.names] = true // the tail settles most untouched pairs
+	g.names++
+}
+
+func (g *gen) addSettle(c *Case, kind string, pr int, v Val) {
+	c.Ops = append(c.Ops, Op{O: kind, Pr: pr, V: &v})
+	if !g.touched[pr] {
+		g.touched[pr] = true
+		g.live[pr] = kind == "rej" || v.K != "prom" || v.N == pr || g.live[v.N]
+		if g.live[pr] && (kind == "rej" || v.K != "prom" || v.N == pr) && v.K != "then" {
+			g.settled = append(g.settled, pr)
+		}
+	}
+}
+
+// handler of the tick-race scenario: logs and passes a value on
+func (g *gen) simpleScript() *Script {
+	s := &Script{ID: g.nextID, Acts: []Act{}}
+	g.nextID++
+	switch g.r.Pick(50, 35, 15) {
+	case 0:
+		s.Ret = Ret{K: "arg"}
+	case 1:
+		v := g.someInt()
+		s.Ret = Ret{K: "val", V: &v}
+	default:
+		v := g.settledProm()
+		s.Ret = Ret{K: "val", V: &v}
+	}
+	return s
+}
+
+// tick race: p0 already fulfilled; in ONE run a then-chain on p0 runs in parallel with async
+// functions returning / awaiting settled promises and with finally; every result promise has a
+// logging handler, so the tick at which it settles is visible in the log order.
+func (g *gen) tickRace(c *Case) {
+	r := g.r
+	c.Class = "tick-race"
+	g.addNew(c)
+	g.addNew(c)
+	g.addSettle(c, "res", 0, g.someInt())
+	if r.Chance(50) {
+		g.addSettle(c, []string{"res", "rej"}[r.Pick(75, 25)], 1, g.someInt())
+	}
+	type item struct {
+		dep   int // index of the item whose promise this one hangs on; -1 = p0; -2 = none
+		build func(target int) Op
+		name  int
+	}
+	var items []item
+	thenItem := func(dep int, both bool) {
+		f := g.simpleScript()
+		var rj *Script
+		if both {
+			rj = g.simpleScript()
+		}
+		items = append(items, item{dep: dep, build: func(t int) Op { return Op{O: "then", P: t, OnF: f, OnR: rj} }})
+	}
+	chain := func(n int) {
+		dep := -1
+		for ; n > 0; n-- {
+			thenItem(dep, r.Chance(20))
+			dep = len(items) - 1
+		}
+	}
+	chain(2 + r.Intn(3))
+	if r.Chance(30) {
+		chain(1 + r.Intn(2))
+	}
+	fulfilled := func() Val {
+		if len(g.settled) > 1 && r.Chance(30) {
+			return Val{K: "prom", N: 1}
+		}
+		return Val{K: "prom", N: 0}
+	}
+	for n := 1 + r.Intn(2); n > 0; n-- {
+		op := Op{O: "async", ID: g.nextID, Awaits: []Val{}, Catch: r.Chance(15)}
+		g.nextID++
+		var v Val
+		switch r.Pick(45, 45, 10) {
+		case 0: // no await, return a settled promise
+			v = fulfilled()
+		case 1: // await p0 once or twice, return int / promise
+			for k := 1 + r.Intn(2); k > 0; k-- {
+				op.Awaits = append(op.Awaits, fulfilled())
+			}
+			if r.Chance(50) {
+				v = g.someInt()
+			} else {
+				v = fulfilled()
+			}
+		default:
+			if r.Chance(50) {
+				op.Awaits = append(op.Awaits, g.someInt())
+			}
+			v = g.someInt()
+		}
+		op.End = &Ret{K: "ret", V: &v}
+		items = append(items, item{dep: -2, build: func(int) Op { return op }})
+		thenItem(len(items)-1, r.Chance(40))
+	}
+	if r.Chance(40) {
+		f := g.simpleScript()
+		items = append(items, item{dep: -1, build: func(t int) Op { return Op{O: "finally", P: t, Fin: f} }})
+		thenItem(len(items)-1, r.Chance(30))
+	}
+	// random topological order
+	done := make([]bool, len(items))
+	for left := len(items); left > 0; left-- {
+		var ready []int
+		for i, it := range items {
+			if !done[i] && (it.dep < 0 || done[it.dep]) {
+				ready = append(ready, i)
+			}
+		}
+		i := ready[r.Intn(len(ready))]
+		t := 0
+		if items[i].dep >= 0 {
+			t = items[items[i].dep].name
+		}
+		items[i].name = g.names
+		g.live[g.names] = true
+		g.names++
+		done[i] = true
+		op := items[i].build(t)
+		op.Run = 1
+		c.Ops = append(c.Ops, op)
+	}
+	if !g.touched[1] && r.Chance(60) {
+		g.addSettle(c, []string{"res", "rej"}[r.Pick(70, 30)], 1, g.someInt())
+		c.Ops[len(c.Ops)-1].Run = 1 + r.Intn(2)
+	}
+	if r.Chance(20) {
+		c.Ops[2].Go = true
+	}
+}
+
+func genCase(r *vh.Rng) Case {
+	g := &gen{r: r, nextID: 1, lastTgt: -1, live: map[int]bool{}, touched: map[int]bool{}}
+	c := Case{Thenables: []Thenable{}, Ops: []Op{}}
+	if r.Chance(20) {
+		g.tickRace(&c)
+		return c
+	}
+	base := 1 + r.Pick(35, 35, 20, 10)
+	g.nT = r.Pick(25, 30, 28, 17)
+	g.wantIntr = r.Chance(15)
+	wantGo := r.Chance(25)
+	g.genThenables(&c, base)
+	for i := 0; i < base; i++ {
+		g.addNew(&c)
+	}
+	const maxOps, maxNames = 12, 10 // ops after the leading news
+	total := base + 2 + r.Intn(maxOps-1)
+	if t2 := base + 2 + r.Intn(maxOps-1); t2 > total && r.Chance(70) {
 		total = t2 // skew towards longer programs
 	}
-	touched := map[int]bool{}
+	if r.Chance(55) { // an early settlement: what follows hangs on a settled promise
+		g.addSettle(&c, []string{"res", "rej"}[r.Pick(70, 30)], 0, g.someInt())
+	}
 	for len(c.Ops) < total {
-		k := r.Pick(44, 17, 10, 10, 6)
-		if g.names >= maxNames && (k == 0 || k == 3 || k == 4) {
+		k := r.Pick(40, 13, 8, 8, 4, 12, 6)
+		if g.names >= maxNames && k != 1 && k != 2 {
 			k = 1 + r.Pick(20, 12)
+		}
+		target := func() int {
+			var p int
+			switch {
+			case g.lastTgt >= 0 && r.Chance(25):
+				p = g.lastTgt
+			case r.Chance(40):
+				p = g.names - 1
+			default:
+				p = g.liveProm().N
+			}
+			if !g.live[p] && r.Chance(60) {
+				p = g.liveProm().N
+			}
+			g.lastTgt = p
+			return p
 		}
 		switch k {
 		case 0:
-			var p int
+			op := Op{O: "then", P: target()}
 			switch {
-			case g.lastTgt >= 0 && r.Chance(30):
-				p = g.lastTgt
-			case r.Chance(45):
-				p = g.names - 1
-			default:
-				p = r.Intn(g.names)
-			}
-			g.lastTgt = p
-			op := Op{O: "then", P: p}
-			if r.Chance(85) {
-				op.OnF = g.script()
-			}
-			if r.Chance(60) {
+			case r.Chance(12): // catch shape
 				op.OnR = g.script()
+			default:
+				if r.Chance(88) {
+					op.OnF = g.script()
+				}
+				if r.Chance(60) {
+					op.OnR = g.script()
+				}
 			}
+			op.Sugar = op.OnF == nil && op.OnR != nil && r.Chance(50)
 			c.Ops = append(c.Ops, op)
+			g.live[g.names] = g.live[op.P]
 			g.names++
 		case 1, 2:
 			pr := g.users[r.Intn(len(g.users))]
-			v := g.resVal(pr)
-			c.Ops = append(c.Ops, Op{O: []string{"", "res", "rej"}[k], Pr: pr, V: &v})
-			touched[pr] = true
+			g.addSettle(&c, []string{"", "res", "rej"}[k], pr, g.resVal(pr))
 		case 3:
 			op := Op{O: "comb", Kind: []string{"all", "allSettled", "race", "any"}[r.Intn(4)], Elems: []Val{}}
+			lv := true
 			for n := r.Intn(4); n > 0; n-- {
+				var v Val
 				switch r.Pick(70, 15, 15) {
 				case 0:
-					op.Elems = append(op.Elems, g.someProm())
+					v = g.liveProm()
 				case 1:
-					op.Elems = append(op.Elems, g.someInt())
+					v = g.someInt()
 				default:
-					op.Elems = append(op.Elems, g.someThen())
+					v = g.someThen()
 				}
+				lv = lv && g.isLive(v)
+				op.Elems = append(op.Elems, v)
 			}
 			c.Ops = append(c.Ops, op)
+			g.live[g.names] = lv
 			g.names++
+		case 4:
+			g.addNew(&c)
+		case 5:
+			c.Ops = append(c.Ops, g.async())
 		default:
-			c.Ops = append(c.Ops, Op{O: "new"})
-			g.users = append(g.users, g.names)
+			op := Op{O: "finally", P: target(), Fin: g.script()}
+			c.Ops = append(c.Ops, op)
+			g.live[g.names] = g.live[op.P]
 			g.names++
 		}
 	}
 	// settle most of the pairs nobody has called yet, so that the attached chains do run
 	for _, pr := range g.users {
-		if touched[pr] || len(c.Ops) >= maxOps || !r.Chance(75) {
+		if g.touched[pr] || !r.Chance(85) {
 			continue
 		}
 		v := g.someInt()
-		if r.Chance(35) {
+		if r.Chance(30) {
 			v = g.resVal(pr)
 		}
-		c.Ops = append(c.Ops, Op{O: []string{"res", "rej"}[r.Pick(60, 40)], Pr: pr, V: &v})
+		g.addSettle(&c, []string{"res", "rej"}[r.Pick(60, 40)], pr, v)
 	}
 	if g.wantIntr && !hasGoOrIntr(Case{Ops: c.Ops}) {
 		var ss []*Script
 		for _, op := range c.Ops {
-			for _, sc := range []*Script{op.OnF, op.OnR} {
+			for _, sc := range []*Script{op.OnF, op.OnR, op.Fin} {
 				if sc != nil {
 					ss = append(ss, sc)
 				}
@@ -1160,7 +1535,7 @@ func hasGoOrIntr(c Case) bool {
 		if op.Go {
 			return true
 		}
-		for _, s := range []*Script{op.OnF, op.OnR} {
+		for _, s := range []*Script{op.OnF, op.OnR, op.Fin} {
 			if s != nil && s.Ret.K == "intr" {
 				return true
 			}
